@@ -120,6 +120,16 @@ add(SV + "fair_merge_vec2_r5", "alloc", "C17", quick=["C17"], thorough=["C17"], 
 add(SV + "fair_merge_vec3_r7", "alloc", "C17", quick=["C17"], thorough=["C17"], cost=200)
 
 # ------------------------------------------------------------------------------------------
+# wide cases: tuple arity 12 (macro index lists), small schedule (each child resolves on its 1st or 2nd poll)
+W = "wide::"
+add(W + "join_tup12", "nostd", "C04", quick=["C04"], cost=50, children=12, polls=2)
+add(W + "tryjoin_tup12", "nostd", "C05", quick=["C05"], cost=55, children=12, polls=2)
+add(W + "race_tup12", "nostd", "C06", quick=["C06"], cost=5, children=12, polls=2)
+add(W + "raceok_tup12_all_err", "nostd", "C07", quick=["C07"], cost=15, children=12, polls=2)
+add(W + "zip_tup12", "nostd", "C09", thorough=["C09"], cost=350, mem_gb=8, children=12, items_each=1)
+add(W + "merge_tup12", "nostd", "C08", thorough=["C08"], cost=800, mem_gb=8, timeout=2400, children=12, items_each=1)
+
+# ------------------------------------------------------------------------------------------
 # std configuration: readiness tracking really reads bits (C01 wake path, C16)
 STD = ["C01", "C16"]
 add("unit::std_wakers::waker_array_k5", "std", "C01", quick=STD, cost=40, ops=5, slots=2)
@@ -136,10 +146,10 @@ add(F + "join_tup3_r3", "std", "C16", thorough=STD + ["C04", "C03", "C20"], cost
 add(F + "join_tup2_r4", "std", "C16", thorough=STD + ["C04", "C03", "C20"], cost=300, children=2, rounds=4)
 add(FV + "join_vec2_r2_quiet", "std", "C16", quick=[], thorough=["C16", "C04", "C01", "C03"], cost=380, timeout=2400, mem_gb=40, children=2, rounds=2,
     note="children do not wake from inside a poll")
-add(S + "merge_arr2_k1_r3", "std", "C16", quick=STD + ["C08"], thorough=["C03", "C20"], cost=200, children=2, rounds=3)
-add(S + "merge_tup2_k1_r3", "std", "C16", quick=STD + ["C08"], thorough=["C03", "C20"], cost=200, children=2, rounds=3)
-add(S + "zip_arr2_k1_r3", "std", "C16", quick=STD + ["C09"], thorough=["C03", "C20"], cost=240, children=2, rounds=3)
-add(S + "zip_tup2_k1_r3", "std", "C16", quick=STD + ["C09"], thorough=["C03", "C20"], cost=240, children=2, rounds=3)
+add(S + "merge_arr2_k1_r3", "std", "C16", quick=STD + ["C08"], thorough=["C03", "C20"], cost=300, mem_gb=13, children=2, rounds=3)
+add(S + "merge_tup2_k1_r3", "std", "C16", quick=STD + ["C08"], thorough=["C03", "C20"], cost=320, mem_gb=13, children=2, rounds=3)
+add(S + "zip_arr2_k1_r3", "std", "C16", quick=STD + ["C09"], thorough=["C03", "C20"], cost=330, mem_gb=13, children=2, rounds=3)
+add(S + "zip_tup2_k1_r3", "std", "C16", quick=STD + ["C09"], thorough=["C03", "C20"], cost=300, mem_gb=13, children=2, rounds=3)
 add(SV + "zip_vec2_k1_r3", "std", "C16", thorough=["C16", "C09", "C01"], cost=380, timeout=2400, mem_gb=40, children=2, rounds=3)
 add(S + "merge_arr2_k2_r5", "std", "C16", thorough=STD + ["C08", "C03", "C20"], cost=830, timeout=3000, mem_gb=40, children=2, rounds=5)
 add(S + "merge_tup2_k2_r5", "std", "C16", thorough=STD + ["C08", "C03", "C20"], cost=830, timeout=3000, mem_gb=40, children=2, rounds=5)
@@ -168,23 +178,22 @@ for (n, cost, hist) in [("sgroup_micro2", 10, "insert, poll"), ("sgroup_keyed_mi
                         ("sgroup_pending_then_any", 12, "insert, poll (pending), poll"),
                         ("sgroup_item_then_any", 12, "insert, poll (item), poll"),
                         ("sgroup_keyed_item_then_any", 12, "keyed: insert, poll (item), poll"),
-                        ("sgroup_items_in_order", 60, "insert, poll (item), poll (item), poll"),
                         ("sgroup_two_end_same_poll", 140, "insert, insert, poll")]:
-    add(G + n, "alloc", "C12", quick=["C12"] + (["C03", "C20", "C02"] if n in ("sgroup_item_then_any", "sgroup_rem_then_poll") else []),
-        thorough=GS, cost=cost, history=hist, members="<= 2", member_behaviour="symbolic where not scripted, no wake-ups from inside polls")
+    add(G + n, "alloc", "C12", quick=(["C12"] + (["C03", "C20", "C02"] if n in ("sgroup_item_then_any", "sgroup_rem_then_poll") else [])) if cost < 100 else [],
+        thorough=GS, cost=cost, mem_gb=24 if cost >= 100 else None, history=hist, members="<= 2", member_behaviour="symbolic where not scripted, no wake-ups from inside polls")
 
 # ------------------------------------------------------------------------------------------
 # concurrent-stream adapters (alloc)
 C = "fam_costream::"
-for (n, cost, q) in [("co_take_l2", 170, 1), ("co_take_l0", 10, 1), ("co_take_l1", 40, 1),
-                     ("co_enumerate_l2", 100, 1), ("co_map_l2", 120, 1),
-                     ("co_enumerate_take_l2", 250, 1), ("co_take_enumerate_l2", 250, 0),
-                     ("co_map_take_l2", 300, 1), ("co_take_map_l2", 300, 0), ("co_take_take_l2", 250, 1),
-                     ("co_limit_map_take_l2", 300, 0), ("co_enumerate_map_take_l2", 400, 0),
-                     ("co_take_enumerate_map_l2", 400, 0), ("co_limit_forwarding", 5, 1),
-                     ("co_take_l3", 600, 0), ("co_enumerate_take_l3", 900, 0)]:
-    add(C + n, "alloc", "C15", quick=["C15"] if q else [], thorough=["C15"], cost=cost, timeout=3000, mem_gb=30,
-        source_len=n[-1] if n[-2] == "l" else "n/a", n="symbolic 0..=3", pending_per_item="0..=1 (0 for depth 3)")
+for (n, cost, q, mem) in [("co_take_l2", 240, 1, 10), ("co_take_l0", 10, 1, 3), ("co_take_l1", 40, 1, 4),
+                          ("co_enumerate_l2", 120, 1, 6), ("co_map_l2", 80, 1, 4),
+                          ("co_take_take_l2", 200, 1, 15), ("co_enumerate_take_l2", 340, 1, 22),
+                          ("co_map_take_l2", 300, 1, 16), ("co_take_enumerate_l2", 250, 0, 16), ("co_take_map_l2", 250, 0, 16),
+                          ("co_limit_map_take_l2", 300, 0, 20), ("co_enumerate_map_take_l2", 400, 0, 24),
+                          ("co_take_enumerate_map_l2", 400, 0, 24), ("co_limit_forwarding", 5, 1, 2),
+                          ("co_take_l3", 600, 0, 24), ("co_enumerate_take_l3", 900, 0, 30)]:
+    add(C + n, "alloc", "C15", quick=["C15"] if q else [], thorough=["C15"], cost=cost, timeout=3000, mem_gb=mem,
+        source_len=n[-1] if n[-2] == "l" else "n/a", n="symbolic 0..=3", pending_per_item="0..=1 for depth-1 stacks, 0 for deeper stacks")
 
 ASSUMPTIONS = [
     "bounded: every claim holds only for the children / rounds / items / history lengths listed per harness (unwinding assertions are on, so a bound that is too small is reported, not silently truncated)",
